@@ -19,6 +19,8 @@ Inductive tag :=
 | W_comments | W_comment | W_hdr | W_ftr | W_footnotes | W_footnote
 | MC_AlternateContent | MC_Choice | MC_Fallback
 | WPS_wsp | WPS_txbx | WP_anchor | A_graphic | A_graphicData | V_shape | V_textbox
+(* DrawingML text (PresentationML shapes) *)
+| A_p | A_r | A_t | A_br | A_fld | A_pPr | A_rPr | A_endParaRPr | A_bodyPr | P_txBody
 (* OpenDocument *)
 | O_document_content | O_body | O_text | O_annotation | O_annotation_end
 | T_p | T_h | T_span | T_a | T_s | T_tab | T_line_break
@@ -46,12 +48,13 @@ Definition ns_draw := s "urn:oasis:names:tc:opendocument:xmlns:drawing:1.0".
 Definition ns_dc := s "http://purl.org/dc/elements/1.1/".
 Definition ns_presentation := s "urn:oasis:names:tc:opendocument:xmlns:presentation:1.0".
 Definition ns_svg := s "urn:oasis:names:tc:opendocument:xmlns:svg-compatible:1.0".
+Definition ns_p := s "http://schemas.openxmlformats.org/presentationml/2006/main".
 Definition ns_x := s "urn:x-verif:other".
 
 Definition prefixes : list (str * str) :=
   [ (s "w", ns_w); (s "mc", ns_mc); (s "wps", ns_wps); (s "wp", ns_wp); (s "a", ns_a); (s "v", ns_v);
     (s "office", ns_office); (s "text", ns_text); (s "table", ns_table); (s "draw", ns_draw);
-    (s "dc", ns_dc); (s "presentation", ns_presentation); (s "svg", ns_svg); (s "x", ns_x) ].
+    (s "dc", ns_dc); (s "presentation", ns_presentation); (s "svg", ns_svg); (s "p", ns_p); (s "x", ns_x) ].
 
 Definition dec (n : N) : str := s (NilZero.string_of_uint (N.to_uint n)).
 
@@ -81,6 +84,9 @@ Definition tag_parts (t : tag) : str * str :=
   | WPS_wsp => (s "wps", s "wsp") | WPS_txbx => (s "wps", s "txbx") | WP_anchor => (s "wp", s "anchor")
   | A_graphic => (s "a", s "graphic") | A_graphicData => (s "a", s "graphicData")
   | V_shape => (s "v", s "shape") | V_textbox => (s "v", s "textbox")
+  | A_p => (s "a", s "p") | A_r => (s "a", s "r") | A_t => (s "a", s "t") | A_br => (s "a", s "br")
+  | A_fld => (s "a", s "fld") | A_pPr => (s "a", s "pPr") | A_rPr => (s "a", s "rPr")
+  | A_endParaRPr => (s "a", s "endParaRPr") | A_bodyPr => (s "a", s "bodyPr") | P_txBody => (s "p", s "txBody")
   | O_document_content => (s "office", s "document-content") | O_body => (s "office", s "body")
   | O_text => (s "office", s "text") | O_annotation => (s "office", s "annotation")
   | O_annotation_end => (s "office", s "annotation-end")
